@@ -11,6 +11,7 @@ from agilerl.algorithms.maddpg import MADDPG
 from agilerl.algorithms.matd3 import MATD3
 
 from ..core import HarnessError
+from ..rand import seeded
 from . import c14_common as cm
 from .c14_det import bclass
 
@@ -66,8 +67,7 @@ def build(algo, group, kind, vdim, ou, expl):
     key = (algo, group, kind, vdim, ou, expl)
     if key not in _AGENTS:
         _, style, sids = GROUPS[group]
-        with torch.random.fork_rng():
-            torch.manual_seed(0)
+        with seeded(0):
             _AGENTS[key] = ALGOS[algo]([cm.obs_space(kind)] * 2, [cm.action_space(s) for s in sids], list(IDS[style]), O_U_noise=ou, expl_noise=expl,
                                        vect_noise_dim=vdim, net_config=cm.net_config(kind))
     return _AGENTS[key]
